@@ -321,9 +321,93 @@ def _no_error(v, G, p, prim, d):
     v.assume(G > 0, p.m >= 0, prim.m > R(TINY), _dot(d, d) > R(TINY) * R(TINY))
 
 
-@P.task("from_particle.defined.probe", fn="reb_orbit_from_particle_err")
+# ---- acos2: contract used at the 7 call sites of reb_orbit_from_particle_err ---------------------------------------
+P.assume("acos2(num, denom, dis) with denom == 0 relies on IEEE semantics (x/0 = +-inf, 0/0 = NaN, comparisons with NaN "
+         "false): result pi if num < 0 else 0, as its comment documents ('will return 0 if denom is exactly 0'); this "
+         "case is modelled by the contract, the denom != 0 case is proved against the real body (task acos2.contract)")
+
+
+def _acos2_spec(eng, st, num, den, dis, node=None):
+    """acos of num/den in the quadrant selected by the sign of `dis`, clamped to {0, pi} outside (-1,1)."""
+    c = num / den
+    inner = z3.And(den != 0, c > -1, c < 1)
+    st.guards.append(inner)
+    try:
+        y = eng.math1(st, "acos", c, node)
+    finally:
+        st.guards.pop()
+    return z3.If(den != 0,
+                 z3.If(z3.And(c > -1, c < 1), z3.If(dis < 0, -y, y), z3.If(c <= -1, R(PI), R(0))),
+                 z3.If(num < 0, R(PI), R(0)))
+
+
+def _use_acos2_contract(v):
+    calls = []
+
+    def apply(eng, st, args, n):
+        num, den, dis = (as_real(a) for a in args)
+        r = _acos2_spec(eng, st, num, den, dis, n)
+        calls.append((num, den, dis, r))
+        return r
+    v.contract("acos2", apply)
+    return calls
+
+
+@P.task("acos2.contract", fn="acos2")
 def _(v):
-    G, p, prim, errp, d, w = _inverse_inputs(v)
-    _no_error(v, G, p, prim, d)
-    o = v.call("reb_orbit_from_particle_err", G, p, prim, errp)
-    v.prove("no_error", v.read(errp) == 0)
+    num, den, dis = v.real("num"), v.real("denom"), v.real("disambiguator")
+    v.assume(den != 0)
+    pi = _pi_facts(v)
+    got = v.call("acos2", num, den, dis)
+    want = _acos2_spec(v.eng, v.st, num, den, dis)
+    v.prove("equals_spec", got == want)
+    v.prove("range", z3.And(got > -pi, got <= R(PI), got < pi))
+    v.prove("nonneg_when_disambiguator_nonneg", z3.Implies(dis >= 0, got >= 0))
+
+
+DEF_ORDER = ("z3slice", "z3", "cvc5")
+
+
+def _slice_first(v):
+    """Engine-generated obligations of this path: try subsets of the hypotheses first (sound, see backends.z3_slices)."""
+    for ob in v.eng.obligations:
+        if ob.verdict is None and "order" not in ob.meta:
+            ob.meta["order"] = DEF_ORDER
+
+
+P.assume("pi: the symbolic real M_PI used by the acos/atan2 axioms satisfies PI_double < pi < PI_double + 2e-16 "
+         "(PI_double = 3.141592653589793115997963..., pi - PI_double = 1.2246e-16)")
+
+
+def _pi_facts(v):
+    pi = v.eng.pi()
+    v.assume(pi > R(PI), pi < R(PI) + R(Fraction(2, 10 ** 16)))
+    return pi
+
+
+def _hvec(d, w):
+    return _cross(d, w)
+
+
+for _cfg in ("generic", "retrograde_planar"):
+    @P.task("from_particle.defined.%s" % _cfg, fn="reb_orbit_from_particle_err", order=DEF_ORDER)
+    def _(v, cfg=_cfg):
+        """Definedness of every division / sqrt / acos on the non-error path.
+        generic: non-parabolic, non-radial, not exactly retrograde-planar state.
+        retrograde_planar (hx = hy = 0, hz < 0, i.e. inc = pi, a valid orbit): EXPECTED TO FAIL on the unchanged tree
+        at the Pal-coordinate block (1 + hz/h = 0 and h + hz = 0): pal_h, pal_k, pal_ix, pal_iy are NaN."""
+        G, p, prim, errp, d, w = _inverse_inputs(v)
+        _no_error(v, G, p, prim, d)
+        mu = G * (p.m + prim.m)
+        D = v.eng.math1(v.st, "sqrt", _dot(d, d))
+        h = _hvec(d, w)
+        v.assume(_dot(w, w) * D != 2 * mu)                                # not parabolic
+        if cfg == "generic":
+            v.assume(_dot(h, h) > 0)                                      # not radial
+            v.assume(z3.Not(z3.And(h[0] == 0, h[1] == 0, h[2] < 0)))      # not exactly retrograde planar
+        else:
+            v.assume(h[0] == 0, h[1] == 0, h[2] < 0)
+        _use_acos2_contract(v)
+        o = v.call("reb_orbit_from_particle_err", G, p, prim, errp)
+        v.prove("no_error", v.read(errp) == 0)
+        _slice_first(v)
